@@ -33,7 +33,8 @@ LEVEL_TEXT = (
     "must equal the renderer's exact inverse and the same text must give the "
     "same result under every configuration (and from concurrent threads). "
     "The inverse law itself is input sampling inside a vetted template "
-    "domain and is reported as such.")
+    "domain and is reported as such."
+    ' Session 3 added: parserinfo-instance routes, short-read text streams, decimal-context events, fractions of 1-6 digits with dot or comma (also after compact times), dates biased to leap days and month/year ends.')
 LEVEL_NOTE = (
     "Trusted: the harness' renderer/inverse (models/render.py); the template "
     "domain is restricted to spellings the parser documents (offsets only "
